@@ -8,6 +8,7 @@ const PKEYS: [u64; 5] = [0, 1, 3, 4, 4294967295];
 fn target(r: &mut Rng) -> Vec<(u64, u64)> {
     let np = r.range(1, 3) as usize;
     let mut runs = Vec::new();
+    let mut big = false;
     let mut keys: Vec<u64> = Vec::new();
     while keys.len() < np {
         let k = *r.pick(&PKEYS);
@@ -23,7 +24,14 @@ fn target(r: &mut Rng) -> Vec<(u64, u64)> {
             if pos < base || (pos - base) >= (1u64 << 32) - 1000 {
                 break;
             }
-            let len = *r.pick(&[1u64, 1, 2, 3, 64, 500, 4097, 5000]);
+            // at most one bitset-sized run per target (single inserts of tens of thousands of values are quadratic in the
+            // list model)
+            let len = if !big && r.chance(1, 5) {
+                big = true;
+                *r.pick(&[4097u64, 4200])
+            } else {
+                *r.pick(&[1u64, 1, 2, 3, 64, 500])
+            };
             if (pos - base) + len >= (1u64 << 32) {
                 break;
             }
